@@ -69,6 +69,17 @@ def crash_oracle(h, i, line, impl, orc):
     return "crash cut: " + orc
 
 
+def fault_oracle(h, i, line, impl, orc):
+    """C17: every single-fault position must surface as an error or leave the answer unchanged"""
+    if orc is None or orc.endswith(" ok") or orc.endswith("skipped"):
+        return None
+    op = line.split()
+    op = op[2] if op[0] == "imm" else op[0]
+    if op in ("irange", "irangeinc", "replaycs"):
+        return None   # IterateRange / IterateRangeInclusive have no error result (outside the property); replaycs is a harness composite
+    return "fault injection: " + orc
+
+
 PROPS = {
     "C01": dict(kind="v1hist", quick_n=1500, thorough_n=4000,
                 profile=Profile(p_hash_read=0.0, check_all_versions=0.5, iters=0.3, big=0.05),
@@ -124,6 +135,14 @@ PROPS = {
                                 thrs=[150, 200, 250, 300, 400, 600, 0], caches=[0, 0, 2, 100], dbs=["mem"],
                                 nkeys=6, p_load_old=0.0, ivs=[None, None, 1, 4]),
                 title="crash atomicity"),
+    "C17": dict(kind="v1hist", quick_n=600, thorough_n=4000, mode="fault", oracle=fault_oracle,
+                profile=Profile(versions=(2, 5), ops_per_version=(0, 4), p_prune=0.3, p_loadow=0.15, p_reopen=0.15,
+                                p_delfrom=0.0, check_all_versions=0.0, reads_per_version=(1, 3),
+                                imm_reads_per_version=(1, 3), meta_per_version=(0, 2), p_hash_read=0.1, iters=0.5,
+                                proofs=0.4, exports=0.3, changes=0.3, p_empty_value=0.0,
+                                thrs=[200, 400, 0, 0], caches=[0, 0, 2, 100], dbs=["mem"], nkeys=5, p_load_old=0.0,
+                                ivs=[None]),
+                title="storage failures surface as errors"),
     "C14": dict(kind="v1hist", quick_n=1500, thorough_n=4000,
                 profile=Profile(meta_per_version=(2, 5), p_load_old=0.25, p_prune=0.3, p_reopen=0.25,
                                 check_all_versions=0.2, p_noop_version=0.35),
@@ -153,6 +172,13 @@ def sig_multibatch_commit_cut(lines, d):
             and ("load-failed" in why or "index:" in why or "get!=walk" in why))
 
 
+def sig_multibatch_commit_fault(lines, d):
+    # K7 under C17: a commit split over several physical writes whose later write fails leaves the earlier ones behind
+    why = d.get("why") or ""
+    return (d["kind"] == "oracle" and d["line"].split()[0] in ("save", "savecs", "prune", "loadow") and _small_thr(lines, d["idx"])
+            and "err-but-store-mixed" in why and "bad" not in why.replace("bad=[", "") and ":panic" not in why)
+
+
 def sig_multibatch_delete_cut(lines, d):
     # K7c: a deletion of old versions / a rollback split over several physical writes
     why = d.get("why") or ""
@@ -169,6 +195,7 @@ SIGNATURES = {
     "empty-value-proof": sig_empty_value_proof,
     "multibatch-commit-cut": sig_multibatch_commit_cut,
     "multibatch-delete-cut": sig_multibatch_delete_cut,
+    "multibatch-commit-fault": sig_multibatch_commit_fault,
 }
 
 
@@ -298,7 +325,7 @@ def run_check(prop, tier, seed, n_override=None):
         thm = proof["theorems"][0]["theorem"] if proof["theorems"] else None
         ev = {
             "property_id": prop, "tier": tier if tier in ("quick", "thorough") else "quick", "seed": seed,
-            "level": "proof",
+            "level": json.load(open(os.path.join(ROOT, "lib", "levels.json"))).get(prop, "proof"),
             "coverage": {
                 "obligations": max(1, proof["obligations"]), "discharged": proof["discharged"],
                 "checker_cmd": "cd lean && lake build Iavl.Props.%s && lake env lean <#print axioms of each theorem>" % prop,
